@@ -423,6 +423,15 @@ def calls_transitive(ctx, fi, expr, depth=0, seen=None, skip_memoised=False):
     memoised helper is not entered (its value is not recomputed per call)."""
     seen = seen if seen is not None else set()
     out = []
+    # local names of the expression are followed to what they were assigned (a value gathered in a local first, or a tuple of parts)
+    for nm_ in [x for x in ast.walk(expr) if isinstance(x, ast.Name) and isinstance(x.ctx, ast.Load)]:
+        key_ = ("name", fi.qualname, nm_.id)
+        if key_ in seen or nm_.id in fi.params:
+            continue
+        seen.add(key_)
+        for st_ in ast.walk(fi.node):
+            if isinstance(st_, ast.Assign) and any(isinstance(t_, ast.Name) and t_.id == nm_.id for tg_ in st_.targets for t_ in ([tg_] if isinstance(tg_, ast.Name) else tg_.elts if isinstance(tg_, (ast.Tuple, ast.List)) else [])):
+                out += calls_transitive(ctx, fi, st_.value, depth, seen, skip_memoised)
     for c in ast.walk(expr):
         if isinstance(c, ast.Call):
             out.append(callee_name(ctx, fi, c))
@@ -736,3 +745,63 @@ def role_rename(f, discovered, role):
     for x in ast.walk(f.node):
         if isinstance(x, ast.Name) and x.id == discovered:
             x.id = role
+
+
+def inline_setter_calls(ctx, fi):
+    """In the analysis' own tree of `fi`: a statement `self.m()` -- m a method of the same class with no parameter but
+    self whose body is a straight line of plain stores / augmented stores (no control flow, no return value, no call
+    statement) -- is replaced by copies of that body.  Behaviour preserving by construction; lets state-machine rules
+    see stores that a class has gathered in a `_reset()`-like helper.  Returns the number of statements replaced."""
+    from . import cfg as _cfgmod
+    if fi.cls is None:
+        return 0
+    count = 0
+
+    def simple_body(m):
+        body = [b for b in m.node.body if not (isinstance(b, ast.Expr) and isinstance(b.value, ast.Constant))]
+        if not body or not all(isinstance(b, (ast.Assign, ast.AugAssign, ast.AnnAssign)) for b in body):
+            return None
+        for b in body:
+            tg = b.targets if isinstance(b, ast.Assign) else [b.target]
+            if not all(isinstance(t, ast.Attribute) and isinstance(t.value, ast.Name) and t.value.id == "self" for t in tg):
+                return None
+            if any(isinstance(x, (ast.Call, ast.Yield, ast.Await, ast.NamedExpr)) for x in ast.walk(b.value if b.value is not None else ast.Constant(None))) and \
+                    not all(isinstance(x.func, ast.Name) and x.func.id in ("list", "dict", "set", "tuple") and not x.args for x in ast.walk(b.value) if isinstance(x, ast.Call)):
+                return None
+        return body
+
+    def rewrite(stmts, parent):
+        nonlocal count
+        out = []
+        for st in stmts:
+            c = st.value if isinstance(st, ast.Expr) else None
+            if isinstance(c, ast.Call) and isinstance(c.func, ast.Attribute) and isinstance(c.func.value, ast.Name) and c.func.value.id == "self" and not c.args and not c.keywords:
+                m = fi.cls.find_method(c.func.attr)
+                if m is not None and hasattr(m, "node") and m is not fi and [p for p in m.params] == ["self"]:
+                    body = simple_body(m)
+                    if body is not None:
+                        ctx.touch(m)
+                        for b in body:
+                            nb = ast.parse(ast.unparse(b)).body[0]
+                            for x in ast.walk(nb):
+                                x.lineno, x.col_offset, x.end_lineno, x.end_col_offset = st.lineno, st.col_offset, st.end_lineno, st.end_col_offset
+                            for x in ast.walk(nb):
+                                for ch in ast.iter_child_nodes(x):
+                                    ch._parent = x
+                            nb._parent = parent
+                            out.append(nb)
+                        count += 1
+                        continue
+            for fld in ("body", "orelse", "finalbody"):
+                blk = getattr(st, fld, None)
+                if isinstance(blk, list) and blk and isinstance(blk[0], ast.stmt) and not isinstance(st, (ast.FunctionDef, ast.ClassDef, ast.AsyncFunctionDef)):
+                    setattr(st, fld, rewrite(blk, st))
+            if isinstance(st, ast.Try):
+                for h in st.handlers:
+                    h.body = rewrite(h.body, h)
+            out.append(st)
+        return out
+    fi.node.body = rewrite(fi.node.body, fi.node)
+    if count:
+        _cfgmod._CACHE.pop(id(fi.node), None)
+    return count
